@@ -766,7 +766,7 @@ fn run_list(stats: &Arc<Stats>, cases: Vec<Case>, workers: usize) -> Option<Fail
 const RULE: &str = "case = (privilege group: unrestricted | whitelist {all, empty, 1-2 explicit} x blacklist {all, empty, 1-2 explicit} over a 6-namespace universe \
 (4 with fixture data incl. the default one, 1 empty, 1 not existing); group stored at creation or through user/update; role visitor/developer; one of the catalogue's \
 (method, route, operation) entries of both console API versions; target namespace; spelling of the default namespace {omitted, empty, 'public'}; request variant). \
-Phase 1 sweeps every endpoint x target x spelling x variant with two complementary groups, phase 2 draws random cases. \
+Phase 1 sweeps every endpoint x target x spelling x variant with two complementary groups, phase 2 draws random cases, phase 3 kills and restarts every server on its data directory and repeats the complementary-group part of the sweep with the sessions the users already hold. \
 Non-trivial = the group restricts AND the administrator's identical request shows something is at stake: for listings/reads the administrator's answer contains a fixture \
 item of a forbidden namespace (or, for permitted targets, of a permitted one); for writes the administrator's identical write changes what the administrator sees.";
 
@@ -904,5 +904,65 @@ fn main_inner(ctx: &Ctx) -> i32 {
     let _ = PALETTE.set(palette);
     let n = ctx.tier.pick(8000u32, 150000u32);
     let failure = run_cases(ctx, &stats, case_strategy, n, workers, 200, |c: &Case| run_case(c));
+    if failure.is_some() {
+        return finish_with(ctx, &stats, failure);
+    }
+    // phase 3: the same users with the sessions they already hold, after every server has been killed and started
+    // again on its data directory (users, privilege groups and sessions are rebuilt from the Raft log / snapshot: the
+    // restriction must survive that round trip)
+    let mut restarted = 0usize;
+    if let Some(pool) = POOL.get() {
+        for cell in pool.iter() {
+            let mut s = match cell.lock() {
+                Ok(g) => g,
+                Err(p) => p.into_inner(),
+            };
+            if s.broken.is_some() {
+                continue;
+            }
+            if let Err(e) = s.proc_.restart_in_place() {
+                s.broken = Some(format!("restart: {}", e));
+                continue;
+            }
+            let ready = s.http.wait_ready(&s.proc_, std::time::Duration::from_secs(60));
+            match ready {
+                Ok(admin) => {
+                    s.admin = admin;
+                    // what a restart does not keep (service-level metadata / protect threshold of the naming fixture are
+                    // not part of the replicated state) is put back before the comparison with the administrator goes on
+                    let mut ok = true;
+                    for kind in KINDS {
+                        match s.snapshot(kind) {
+                            Ok(cur) => {
+                                if s.restore(kind, &cur).is_err() {
+                                    ok = false;
+                                }
+                            }
+                            Err(_) => ok = false,
+                        }
+                    }
+                    if ok {
+                        s.broken = None;
+                        restarted += 1;
+                    }
+                }
+                Err(e) => {
+                    let tail = s.proc_.log_tail();
+                    drop(s);
+                    let f = Failure { case: Case { group: GroupSpec::Unrestricted, via_update: false, visitor: false, ep: "restart".into(), target: 0, spelling: Spelling::Omitted, variant: 0 }, message: format!("a server did not come back after kill -9 + restart on its data directory: {} / {}", e, tail) };
+                    return finish_with(ctx, &stats, Some(f));
+                }
+            }
+        }
+    }
+    stats.set_extra("servers_restarted_for_phase_3", json!(restarted));
+    let g1 = GroupSpec::Lists { wl: ListSpec::Ids(vec![0, 2, 4, 5]), bl: ListSpec::Ids(vec![]) };
+    let g2 = GroupSpec::Lists { wl: ListSpec::All, bl: ListSpec::Ids(vec![0, 2, 4, 5]) };
+    let after: Vec<Case> = sweep_cases().into_iter().filter(|c| (c.group == g1 || c.group == g2) && c.variant <= 1 && matches!(c.spelling, Spelling::Empty)).collect();
+    stats.set_extra("after_restart_cases", json!(after.len()));
+    let failure = run_list(&stats, after, workers);
+    if let Some(f) = &failure {
+        eprintln!("C18: phase 3 (after restart of the servers) failed: {}", f.message.chars().take(300).collect::<String>());
+    }
     finish_with(ctx, &stats, failure)
 }
